@@ -85,6 +85,7 @@ type FnTrans struct {
 	curCall    *ssa.CallCommon
 	binds      map[string]Val
 	pendingBind string
+	refines     *FuncContract // function-type contract this closure must refine
 	inlineDepth int
 	inlineCtr   map[string]map[string]int // obligation counters of inlined callees (unique names)
 	pendingGhost []AtItem // ghost-local updates to perform after the current call
@@ -611,7 +612,21 @@ func (tr *FnTrans) run() {
 	// requires
 	if tr.fc != nil {
 		ec := tr.specCtx(tr.cur, nil, nil)
+		tr.refines = tr.w.refinementTarget(fn)
+		var fhyp []string
+		if tr.refines != nil && !tr.scan {
+			fec := tr.refineCtx(tr.cur, nil, nil)
+			for _, c := range tr.refines.Requires {
+				fhyp = append(fhyp, fec.evalBool(c.E))
+			}
+		}
 		for _, c := range tr.fc.Requires {
+			if tr.refines != nil && !tr.scan && mentionsNames(c.E, tr.ownParamNames()) {
+				// refinement: a caller that knows only the function type's
+				// contract establishes the closure's own parameter conditions
+				vc.oblig(tr.name+"#refines-pre:"+c.Label, "refines", sImp(sAnd(fhyp...), ec.evalBool(c.E)),
+					"the function type's preconditions imply the closure's precondition: "+c.Text)
+			}
 			vc.fact(ec.evalBool(c.E), "requires "+c.Label)
 			tr.masksFromRequires(c.E, pnames)
 		}
@@ -671,6 +686,20 @@ func (tr *FnTrans) run() {
 			tr.ghostLocals[gl.Name] = comp
 		}
 	}
+	if tr.fc != nil {
+		for _, name := range tr.fc.GhostResets {
+			g, ok := tr.w.ghosts[name]
+			if !ok {
+				panic(vcErrorf("ghostreset: %s is not a ghost variable", name))
+			}
+			comp := ghostComp(name)
+			srt := ghostSort(g.Type)
+			vc.compDecl(comp, srt)
+			n := vc.fresh(comp+"@r", srt)
+			vc.fact(sEq(n, zeroOfSort(srt)), "")
+			tr.cur.m[comp] = n
+		}
+	}
 	for _, b := range tr.order {
 		tr.block(b)
 	}
@@ -699,6 +728,18 @@ func zeroOfSort(srt string) string {
 func (tr *FnTrans) afterCall(items []AtItem) {
 	vc := tr.vc
 	for _, ai := range items {
+		if ai.What == "hint" {
+			// proved here (after the call and the ghost updates before it in
+			// the contract), then available as a fact
+			ec := tr.specCtx(tr.cur, tr.entryHeap, nil)
+			at := tr.curBlock
+			heap := tr.cur
+			ec.lookup = func(name string) (Val, bool) { return tr.lookupLocal(name, at, heap) }
+			t := sImp(tr.curReach, ec.evalBool(ai.E))
+			vc.oblig(fmt.Sprintf("%s#assert:%s", tr.name, ai.Label), "assert", t, "assertion after "+ai.Anchor+": "+ai.Text)
+			vc.fact(t, "")
+			continue
+		}
 		var gname, qname string
 		if ix, ok := ai.Target.(*EIndex); ok {
 			if id, ok2 := ix.X.(*EIdent); ok2 {
@@ -1239,10 +1280,21 @@ func (tr *FnTrans) atCall(simple string) {
 			// name the call: <name> is true iff this call is executed; ghost
 			// results of the callee become <name>_<result>
 			tr.binds[ai.Text] = Val{K: KBool, T: tr.curReach, Typ: types.Typ[types.Bool]}
+			if tr.curReach != "true" && tr.curReach != "false" {
+				dup := false
+				for _, sv := range tr.vc.splitVars {
+					if sv == tr.curReach {
+						dup = true
+					}
+				}
+				if !dup {
+					tr.vc.splitVars = append(tr.vc.splitVars, tr.curReach)
+				}
+			}
 			tr.pendingBind = ai.Text
 			continue
 		}
-		if ai.What == "ghost" {
+		if ai.What == "ghost" || ai.What == "hint" {
 			tr.pendingGhost = append(tr.pendingGhost, ai)
 			continue
 		}
@@ -1262,6 +1314,9 @@ func (tr *FnTrans) exit() {
 	if tr.fc != nil && !tr.scan {
 		for k, ai := range tr.fc.At {
 			if !tr.atUsed[k] {
+				if ai.Anchor == "exit" {
+					continue
+				}
 				if ai.What == "bind" {
 					// a named call that does not exist is never executed
 					// (its ghost results, if referenced, remain unknown
@@ -1385,6 +1440,28 @@ func (tr *FnTrans) exit() {
 		}
 		comp := ghostComp(name)
 		vc.compDecl(comp, ghostSort(g.Type))
+		if gs.Pointwise {
+			qid, ok := idxs[0].(*EIdent)
+			if len(idxs) != 1 || !ok {
+				panic(vcErrorf("ghostset pointwise: expected x[v] := e"))
+			}
+			srt := vc.compSort[comp]
+			ks, _ := splitArrSort(srt)
+			qv := Val{K: sortKind(ks), T: qsym("gq$" + qid.Name), Sort: ks}
+			switch qv.K {
+			case KStr:
+				qv.Typ = types.Typ[types.String]
+			case KIface:
+				qv.Typ = types.NewInterfaceType(nil, nil)
+			}
+			pec := tr.specCtx(fin, tr.entryHeap, env)
+			pec.env[qid.Name] = qv
+			v := pec.eval(gs.E)
+			n := vc.fresh(comp+"@g", srt)
+			vc.fact(fmt.Sprintf("(forall ((%s %s)) (! (= (select %s %s) %s) :pattern ((select %s %s))))", qv.T, ks, n, qv.T, v.T, n, qv.T), "")
+			fin.m[comp] = n
+			continue
+		}
 		v := ec.eval(gs.E)
 		cur := vc.hget(fin, comp)
 		nv := v.T
@@ -1398,6 +1475,22 @@ func (tr *FnTrans) exit() {
 		n := vc.fresh(comp+"@g", vc.compSort[comp])
 		vc.fact(sEq(n, nv), "")
 		fin.m[comp] = n
+	}
+	// proof hints: `at exit assert [l] e` is proved and then available to the
+	// postconditions (typically a statement that introduces witness terms)
+	for k, ai := range tr.fc.At {
+		if ai.Anchor != "exit" || ai.What != "assert" {
+			continue
+		}
+		tr.atUsed[k] = true
+		hec := tr.specCtx(fin, tr.entryHeap, env)
+		t := sImp(anyRet, hec.evalBool(ai.E))
+		vc.oblig(fmt.Sprintf("%s#assert:%s", tr.name, ai.Label), "assert", t, "assertion at exit: "+ai.Text)
+		vc.fact(t, "")
+	}
+	ec = tr.specCtx(fin, tr.entryHeap, env)
+	if tr.refines != nil {
+		tr.refinePost(fin, anyRet, results)
 	}
 	for _, c := range tr.fc.Ensures {
 		vc.oblig(tr.name+"#ensures:"+c.Label, "ensures", sImp(anyRet, ec.evalBool(c.E)), "postcondition: "+c.Text)
@@ -2105,4 +2198,133 @@ func (tr *FnTrans) inlineCall(callee *ssa.Function, args []Val) Val {
 		return results[0]
 	}
 	return Val{K: KTuple, Fields: results, Typ: callee.Signature.Results()}
+}
+
+// ---------------------------------------------------------------- closures refine their function type's contract
+
+func (tr *FnTrans) ownParamNames() map[string]bool {
+	m := map[string]bool{}
+	for _, p := range tr.fn.Params {
+		m[p.Name()] = true
+	}
+	if tr.fc != nil {
+		for _, p := range tr.fc.Params {
+			m[p.Name] = true
+		}
+	}
+	return m
+}
+
+func mentionsNames(e Expr, names map[string]bool) bool {
+	found := false
+	var walk func(e Expr)
+	walk = func(e Expr) {
+		if e == nil || found {
+			return
+		}
+		switch x := e.(type) {
+		case *EIdent:
+			if names[x.Name] {
+				found = true
+			}
+		case *ECall:
+			for _, a := range x.Args {
+				walk(a)
+			}
+		case *EBin:
+			walk(x.L)
+			walk(x.R)
+		case *EUn:
+			walk(x.X)
+		case *EIndex:
+			walk(x.X)
+			walk(x.I)
+		case *ESlice:
+			walk(x.X)
+			walk(x.Lo)
+			walk(x.Hi)
+		case *ESel:
+			walk(x.X)
+		case *EQuant:
+			walk(x.Body)
+		case *EIte:
+			walk(x.C)
+			walk(x.A)
+			walk(x.B)
+		}
+	}
+	walk(e)
+	return found
+}
+
+// refineCtx evaluates clauses of the function type's contract with its
+// parameter names bound to this closure's parameters (by position).
+func (tr *FnTrans) refineCtx(heap, old *Heap, results []Val) *evalCtx {
+	f := tr.refines
+	extra := map[string]Val{}
+	if len(f.Params) != len(tr.fn.Params) {
+		panic(vcErrorf("function type contract lists %d parameters, closure has %d", len(f.Params), len(tr.fn.Params)))
+	}
+	for i, p := range f.Params {
+		extra[p.Name] = tr.vals[tr.fn.Params[i]]
+	}
+	for i, r := range f.Results {
+		if i < len(results) {
+			extra[r.Name] = results[i]
+		}
+	}
+	ec := tr.specCtx(heap, old, extra)
+	if pp, ok := tr.w.functypePkgPath[f]; ok {
+		if tp := tr.w.tpkgs[pp]; tp != nil {
+			ec.pkg = tp
+		}
+	}
+	return ec
+}
+
+// refinePost: the closure's body establishes the function type's
+// postconditions and stays within its frame.
+func (tr *FnTrans) refinePost(fin *Heap, anyRet string, results []Val) {
+	vc := tr.vc
+	f := tr.refines
+	fec := tr.refineCtx(fin, tr.entryHeap, results)
+	for _, c := range f.Ensures {
+		vc.oblig(tr.name+"#refines:"+c.Label, "refines", sImp(anyRet, fec.evalBool(c.E)), "postcondition of the function type: "+c.Text)
+	}
+	if f.ModAll {
+		return
+	}
+	// frame: components the closure may modify must be modifiable under the
+	// function type's contract
+	pre := tr.refineCtx(tr.entryHeap, tr.entryHeap, nil)
+	allowed := map[string]bool{}
+	for _, m := range f.Modifies {
+		for _, t := range tr.modTargets(pre, m) {
+			allowed[t.comp] = true
+		}
+	}
+	excepted := map[string]bool{}
+	for _, m := range f.ModExcept {
+		for _, t := range tr.modTargets(pre, m) {
+			excepted[t.comp] = true
+		}
+	}
+	var bad []string
+	for c := range tr.modComps {
+		isGhost := strings.HasPrefix(c, "G$")
+		switch {
+		case allowed[c]:
+		case f.ModHeap && !isGhost && !excepted[c]:
+		default:
+			bad = append(bad, c)
+		}
+	}
+	sort.Strings(bad)
+	term, desc := "true", "the closure's modifies clause stays within the function type's frame"
+	if tr.fc.ModAll || (tr.fc.ModHeap && !f.ModHeap) {
+		term, desc = "false", "the closure may modify everything, the function type's contract does not allow that"
+	} else if len(bad) > 0 {
+		term, desc = "false", "the closure may modify "+strings.Join(bad, ", ")+", which the function type's contract keeps unchanged"
+	}
+	vc.oblig(tr.name+"#refines-frame", "refines", term, desc)
 }
